@@ -42,6 +42,8 @@ class Screen608:
     self.suppressed = []  # frames of words ignored as redundant copies
     self.reused = {}  # id() of row buffers that a PAC re-addressed while they held content -> set of relations
     self.states_reused = []  # per event: displayed rows that were written over earlier content
+    self.base = 15  # roll-up base row a 608 decoder would use (the display model below stays anchored at row 15)
+    self.states_base = []  # per event
 
   # ---------------------------------------------------------------- helpers
   def _mem(self):
@@ -117,6 +119,7 @@ class Screen608:
     self.events.append({"first": frame, "last": frame, "kind": kind, "code": w})
     self.states.append(self.snapshot())
     self.states_reused.append(dict((r, sorted(self.reused[id(cells)])) for r, cells in self.disp.items() if id(cells) in self.reused))
+    self.states_base.append(self.base if self.mode == "roll" else 15)
 
   def _code(self, b1, b2, frame):
     w = (b1, b2)
@@ -140,6 +143,7 @@ class Screen608:
       if self.mode == "roll":
         # the window stays anchored at row 15 in this model (the reader documents that it forces the base row)
         self.col = col
+        self.base = max(rk, self.depth)  # a decoder moves the window so that its base row is the PAC's row
         self._probe("pac_in_rollup")
         if 15 in self.disp and any(c is not None for c in self.disp[15]):
           self._probe("pac_on_reused_row")
@@ -189,6 +193,7 @@ class Screen608:
         self.disp = {}
         self.nond = {}
         self.row, self.col = 15, 1
+        self.base = 15
       self.mode = "roll"
       self.depth = b2 - 0x23
       self.row = 15
